@@ -754,6 +754,10 @@ static int q_cmp(void const *l, void const *r)
         ++cmp_foreign;
         return 0;
     }
+    /* que.h documents the key of a_que_push_sort as "the key on the right": a comparator that tells elements (left) from keys
+       (right) apart is a legitimate use.  A call with the key as the LEFT operand counts as foreign (seeded change C05-G: the
+       scan rewritten as cmp(key, element) < 0). */
+    if (cmp_extra[0] && l == cmp_extra[0]) { ++cmp_foreign; }
     return cmp_result(*(unsigned char const *)l, *(unsigned char const *)r);
 }
 /* Destructor accounting (SURFACE). Every API call that takes an element destructor (a_que_die, a_que_dtor, a_que_drop,
@@ -3453,8 +3457,10 @@ static inline int lq_same(void const *p, size_t siz, uint32_t id, uint32_t key)
     }
     return 1;
 }
+static int lq_key_left;
 static int lq_cmp(void const *l, void const *r)
 {
+    if (l == (void const *)lq_keybuf) { ++lq_key_left; }
     if (lq_cmp_siz >= 4)
     {
         uint32_t a, b;
@@ -3767,7 +3773,9 @@ static int lq_sorted_insert(int k, int variant, uint32_t key)
     {
         opname = "push_sort";
         vf_log("que %d push_sort key %u (num %zu, admissible positions %zu..%zu)", k, key, n, lo, hi);
+        lq_key_left = 0;
         p = a_que_push_sort(m->q, lq_keybuf, lq_cmp);
+        if (lq_key_left) { LFAIL("comparator-key-on-the-left", "%d comparator calls had the key as the left operand (documented: the key on the right)", lq_key_left); return; }
         if (p) { memcpy(p, lq_keybuf, m->siz); }
     }
     else if (variant == 1)
